@@ -105,14 +105,22 @@ func c12Scenarios(tier string) []c12Scenario {
 	// delivers other bytes of the same length on the second pass AND the run is stopped / faulted
 	// at every operation: the file must never reach its full size with unverified bytes
 	for _, d := range sizes {
-		if len(d) == 0 || (len(d) > 50000 && tier != "thorough") {
+		if len(d) == 0 {
 			continue
 		}
 		tag := fmt.Sprintf("size%d", len(d))
 		for _, id := range []int{0, 1} {
 			pre := map[string][]byte{"a:" + idHex(1): entryBytes(1, d, 1700000000000000009)}
 			out = append(out, c12Scenario{Name: fmt.Sprintf("trimmed-output/id%d/%s", id, tag), Pre: pre, ID: id, Data: d, Undamaged: true})
-			for _, r := range []int{0, len(d) / 2, len(d) - 1} {
+			rs := []int{0, len(d) / 2, len(d) - 1}
+			if len(d) > 50000 && tier != "thorough" {
+				// the 100000-byte output (several chunks, above 64 KiB): one source-change offset in the quick tier
+				if id == 1 {
+					continue
+				}
+				rs = []int{70000}
+			}
+			for _, r := range rs {
 				out = append(out, c12Scenario{Name: fmt.Sprintf("trimmed-output-diff2@%d/id%d/%s", r, id, tag), Pre: pre,
 					ID: id, Data: d, Reader: "diff2", R: r, Undamaged: true, Combine: true})
 			}
